@@ -47,6 +47,7 @@ def run(ck, fb):
     r18j(ck, fb)
     r18k(ck, fb)
     r18l(ck, fb)
+    r18m(ck, fb)
 
 
 def find_generic(fb, suffix):
@@ -675,3 +676,60 @@ def r18l(ck, fb, R='R18l'):
         else:
             ck.ok(R, '%s:checked-is-used' % h, m.where(), 'every namespace input that reaches a sink was checked')
     ck.floor(R, 'console handlers with a privilege check and a data sink', n, 20)
+
+
+def _may_be_none(fb, b, op, depth=0):
+    """can this Option operand be a literal None (directly, through a multi-definition local, or as the answer of a same-crate helper)?"""
+    if depth > 5:
+        return False
+    d = cfg.describe_operand(b, op)
+    if d['k'] == 'agg':
+        return d['rv'].get('variant') == 'None'
+    if d['k'] == 'multi':
+        for (kind, bb, j, node) in d['defs']:
+            if kind == 'stmt' and node['rv']['k'] == 'agg' and node['rv'].get('variant') == 'None':
+                return True
+            if kind == 'stmt' and node['rv']['k'] == 'use' and _may_be_none(fb, b, node['rv']['op'], depth + 1):
+                return True
+            if kind == 'call' and _call_may_none(fb, node, depth):
+                return True
+        return False
+    if d['k'] == 'call':
+        return _call_may_none(fb, d['term'], depth)
+    return False
+
+
+def _call_may_none(fb, term, depth):
+    hb = fb.bodies.get(cfg.callee_name(term) or '')
+    if hb is None or not hb.name.startswith('rnacos::'):
+        return False
+    for (kind, bb, j, node) in hb.defs.get(0, []):
+        if kind == 'stmt' and node['rv']['k'] == 'agg' and node['rv'].get('variant') == 'None':
+            return True
+        if kind == 'stmt' and node['rv']['k'] == 'use' and _may_be_none(fb, hb, node['rv']['op'], depth + 1):
+            return True
+        if kind == 'call' and _call_may_none(fb, node, depth + 1):
+            return True
+    return False
+
+
+def r18m(ck, fb, R='R18m'):
+    ck.rule(R, 'the decoder of the stored user record hands both namespace lists on, whatever the flags say: UserManager::update_user decodes the '
+               'record with UserDo::build_namespace_privilege, patches what the request names and writes the lists back, so a list the decoder leaves '
+               'out ("its is-all flag is set, nobody reads it") is erased from the store by the next partial update - the flag is cleared later and the '
+               'explicit blacklist is gone. For an enabled privilege both list arguments of PrivilegeGroup::new are Some(..) on every path and derive '
+               'from namespace_white_list / namespace_black_list')
+    b = ck.body('rnacos::user::model::UserDo::build_namespace_privilege', R)
+    if not b:
+        return
+    news = [x for x in util.region(fb, b, 2) for x in [x] if x.calls(r'privilege::PrivilegeGroup::<.*>::new$|privilege::PrivilegeGroup::new$')]
+    sites = [(x, s0) for x in news for s0 in x.calls(r'privilege::PrivilegeGroup::<.*>::new$|privilege::PrivilegeGroup::new$')]
+    ck.floor(R, 'PrivilegeGroup::new sites of the record decoder', len(sites), 1)
+    for (x, s0) in sites:
+        for (k, fld) in ((1, 'namespace_white_list'), (2, 'namespace_black_list')):
+            t = Taint(x, place_src=field_place_src(fld), mut_args=True)
+            some = not _may_be_none(fb, x, s0.args[k])
+            ck.require(some and t.op_tainted(s0.args[k]), R, 'build_namespace_privilege:%s-always-decoded' % fld, s0.where(),
+                       'the decoded privilege of a stored user %s: update_user writes the decoded lists back, so a partial update erases the stored %s '
+                       '(whitelistIsAll, blacklist [ns-secret]; set blacklistIsAll, then clear it without resending the list: the user is let into ns-secret)'
+                       % ('can carry None for %s' % fld if not some else 'does not take its list from %s' % fld, fld), 'Some(list) from %s' % fld)
